@@ -253,6 +253,29 @@ pub fn worker_main(prop: &'static dyn Property, tier: Tier, base_seed: u64, widx
     let mut longest: Option<(usize, Value)> = None;
     let mut harness_errors: Vec<String> = Vec::new();
 
+    // Real-time watchdog: a single run that does not come back (a busy loop that never yields, a
+    // blocking call) would otherwise hang the whole check. The stuck run is reported with its seed.
+    let current: std::sync::Arc<Mutex<Option<(Instant, u64, u32, u64)>>> = std::sync::Arc::new(Mutex::new(None));
+    {
+        let current = current.clone();
+        let out = out.to_path_buf();
+        let limit = Duration::from_secs(std::env::var("VERIF_RUN_LIMIT_S").ok().and_then(|s| s.parse().ok()).unwrap_or(150));
+        std::thread::Builder::new()
+            .name("watchdog".into())
+            .spawn(move || loop {
+                std::thread::sleep(Duration::from_millis(500));
+                let cur = *current.lock().unwrap();
+                if let Some((t0, r, mode, seed)) = cur {
+                    if t0.elapsed() > limit {
+                        let v = json!({"run": r, "mode": mode, "seed": seed, "elapsed_s": t0.elapsed().as_secs()});
+                        let _ = std::fs::write(out.with_extension("stuck"), serde_json::to_vec(&v).unwrap());
+                        std::process::exit(0);
+                    }
+                }
+            })
+            .expect("spawn watchdog");
+    }
+
     let mut r = widx;
     while r < budget.runs {
         if start.elapsed() > cap {
@@ -260,7 +283,9 @@ pub fn worker_main(prop: &'static dyn Property, tier: Tier, base_seed: u64, widx
             break;
         }
         let spec = RunSpec { mode: (r % modes) as u32, seed: run_seed(base_seed, prop.id(), r) };
+        *current.lock().unwrap() = Some((Instant::now(), r, spec.mode, spec.seed));
         let rec = execute(prop, spec, None);
+        *current.lock().unwrap() = None;
         executed += 1;
         *per_mode.entry(prop.mode_name(rec.spec.mode).to_string()).or_insert(0) += 1;
         if rec.nontrivial {
@@ -501,6 +526,20 @@ pub fn write_replay(prop: &dyn Property, spec: &RunSpec, choices: &[u32], sig: &
     path
 }
 
+pub fn write_replay_by_seed(prop: &dyn Property, spec: &RunSpec, sig: &str, detail: &str) -> PathBuf {
+    let dir = verif_dir().join("replays");
+    let _ = std::fs::create_dir_all(&dir);
+    let path = dir.join(format!("{}-{}-{}.json", prop.id(), sanitize(sig), spec.seed));
+    let v = json!({
+        "property": prop.id(), "mode": spec.mode, "mode_name": prop.mode_name(spec.mode), "seed": spec.seed,
+        "signature": sig, "detail": detail, "repo_head": repo_head(), "shrunk": false,
+        "choices": Value::Null, "trace": [],
+        "note": "the run never returned, so no choice stream could be recorded; replay draws from the PRNG seeded with `seed` (same execution) under a real-time watchdog",
+    });
+    std::fs::write(&path, serde_json::to_vec_pretty(&v).unwrap()).expect("write replay");
+    path
+}
+
 /// Replay a file in this process. Returns exit code.
 pub fn replay_main(prop: &'static dyn Property, path: &Path) -> i32 {
     let bytes = match std::fs::read(path) {
@@ -512,9 +551,23 @@ pub fn replay_main(prop: &'static dyn Property, path: &Path) -> i32 {
     };
     let v: Value = serde_json::from_slice(&bytes).expect("replay file is not JSON");
     let spec = RunSpec { mode: v["mode"].as_u64().unwrap_or(0) as u32, seed: v["seed"].as_u64().unwrap_or(0) };
-    let choices: Vec<u32> = v["choices"].as_array().map(|a| a.iter().map(|x| x.as_u64().unwrap_or(0) as u32).collect()).unwrap_or_default();
+    let choices: Option<Vec<u32>> = v["choices"].as_array().map(|a| a.iter().map(|x| x.as_u64().unwrap_or(0) as u32).collect());
     let sig = v["signature"].as_str().unwrap_or("").to_string();
-    let rec = execute(prop, spec, Some(choices));
+    // Watchdog: a replayed run that does not return is itself the reproduction of a no-progress
+    // violation.
+    {
+        let limit = Duration::from_secs(std::env::var("VERIF_RUN_LIMIT_S").ok().and_then(|s| s.parse().ok()).unwrap_or(150));
+        let id = prop.id();
+        let p = path.to_path_buf();
+        std::thread::spawn(move || {
+            std::thread::sleep(limit);
+            println!("replay: the run did not return within {} s of real time (no progress)", limit.as_secs());
+            println!("VIOLATION property={} replay={}", id, p.display());
+            let _ = std::io::stdout().flush();
+            std::process::exit(1);
+        });
+    }
+    let rec = execute(prop, spec, choices);
     for l in &rec.trace {
         println!("  {l}");
     }
@@ -570,10 +623,18 @@ pub fn parent_main(prop: &'static dyn Property, tier: Tier, base_seed: u64) -> i
     }
     let mut partials: Vec<Value> = vec![];
     let mut harness_errors: Vec<String> = vec![];
+    let mut stuck: Vec<Value> = vec![];
     for (w, mut child, out) in children {
         let status = child.wait().expect("wait worker");
         if !status.success() {
             harness_errors.push(format!("worker {w} died: {status}"));
+            continue;
+        }
+        let stuck_path = out.with_extension("stuck");
+        if let Ok(b) = std::fs::read(&stuck_path) {
+            let v: Value = serde_json::from_slice(&b).expect("stuck JSON");
+            let _ = std::fs::remove_file(&stuck_path);
+            stuck.push(v);
             continue;
         }
         match std::fs::read(&out) {
@@ -635,6 +696,15 @@ pub fn parent_main(prop: &'static dyn Property, tier: Tier, base_seed: u64) -> i
         }
     }
 
+    // Runs that never came back (real-time watchdog): reported by seed, without a choice stream.
+    for st in &stuck {
+        let sig = format!("{}|no-progress|a run did not return within the real-time limit (busy loop without yielding, or a blocking call)", prop.id());
+        *viol_counts.entry(sig.clone()).or_insert(0) += 1;
+        viols.entry(sig.clone()).or_insert_with(|| {
+            json!({"signature": sig, "detail": format!("run {} (mode {}, seed {}) was still running after {} s of real time; the worker was stopped", st["run"], st["mode"], st["seed"], st["elapsed_s"]), "run": st["run"], "mode": st["mode"], "seed": st["seed"], "choices": Value::Null, "trace": []})
+        });
+    }
+
     // Classify violations: known finding vs. new.
     let known = load_known_findings();
     let mut known_hit: Vec<Value> = vec![];
@@ -643,8 +713,19 @@ pub fn parent_main(prop: &'static dyn Property, tier: Tier, base_seed: u64) -> i
     for (sig, v) in &viols {
         let is_known = known.iter().find(|k| k.status == "known" && k.property == prop.id() && k.signature == *sig);
         let spec = RunSpec { mode: v["mode"].as_u64().unwrap() as u32, seed: v["seed"].as_u64().unwrap() };
-        let choices: Vec<u32> = v["choices"].as_array().unwrap().iter().map(|x| x.as_u64().unwrap() as u32).collect();
         let detail = v["detail"].as_str().unwrap_or("");
+        if v["choices"].is_null() {
+            // Stuck run: replay by seed (fresh PRNG), guarded by the replay watchdog.
+            if is_known.is_none() {
+                let path = write_replay_by_seed(prop, &spec, sig, detail);
+                println!("violation: {sig}\n  detail: {detail}");
+                println!("VIOLATION property={} replay={}", prop.id(), path.display());
+                new_violations.push(json!({"signature": sig, "detail": detail, "replay": path.display().to_string(), "runs": viol_counts.get(sig)}));
+                exit = 1;
+                continue;
+            }
+        }
+        let choices: Vec<u32> = v["choices"].as_array().map(|a| a.iter().map(|x| x.as_u64().unwrap() as u32).collect()).unwrap_or_default();
         if let Some(k) = is_known {
             println!("KNOWN-FINDING: property={} {} [{}] (hit in {} runs; first seed {})", prop.id(), k.what, sig, viol_counts.get(sig).copied().unwrap_or(0), spec.seed);
             known_hit.push(json!({"signature": sig, "runs": viol_counts.get(sig), "what": k.what}));
